@@ -11,7 +11,7 @@ import math
 import traceback
 from fractions import Fraction
 
-from build import (Definition, make_ui_model, ekf_args, named, fl, frac, interp, is_rat, BY_HARNESS)
+from build import (Definition, make_ui_model, ekf_args, named, fl, frac, interp, is_rat, BY_HARNESS, resolve_presentation)
 
 RTOL = 1e-9
 
@@ -115,29 +115,10 @@ def needs_ekf(scn):
     return any(s["act"] != "ModelEval" for s in scn["steps"])
 
 
-def resolve_presentation(pres, d):
-    """named presentations -> concrete (container callable, order dict)"""
-    pres = dict(pres or {})
-    c = pres.get("container", set)
-    if isinstance(c, str):
-        if c == "list-reversed":
-            rev = lambda xs: list(reversed(sorted(xs)))
-            order = {"state": rev(d.state), "control": rev(d.control), "calib": rev(d.calib), "update": rev(d.state),
-                     "calmap": rev(d.calib), "pnoise": rev(d.control), "sensors": rev(d.sensors), "snoise": rev(d.snoise)}
-            for k in d.sensors:
-                order["readings:" + k] = rev(d.sensors[k])
-                order["snoise:" + k] = rev(d.snoise[k])
-            pres["order"] = order
-            pres["container"] = list
-        else:
-            pres["container"] = {"set": set, "list": list, "tuple": tuple, "frozenset": frozenset}[c]
-    return pres
-
-
 def build_py(d, ui, python, cse, want_ekf, presentation=None):
     pres = resolve_presentation(presentation, d)
     model, symtab = make_ui_model(d, ui, container=pres.get("container", set), order=pres.get("order"),
-                                  as_string=pres.get("as_string", False))
+                                  as_string=pres.get("as_string", False), proactive_simplify=pres.get("proactive_simplify", False))
     cfg = {"common_subexpression_elimination": bool(cse), "innovation_filtering": d.gate()}
     pn, sm, sn, cm = ekf_args(d, symtab, order=pres.get("order"))
     if want_ekf:
@@ -177,7 +158,12 @@ def replay(scn, ui, python, cse=True, presentation=None, force_ekf=False):
         if want_ekf:
             if [str(x) for x in impl.arglist_state] != list(lay["state"]) or [str(x) for x in impl.arglist_control] != list(lay["control"]):
                 res.mismatches.append(Mismatch(step=-1, what="layout", name="ekf", expected=lay["state"], observed=[str(x) for x in impl.arglist_state]))
+            if [str(x) for x in impl.arglist_calibration] != list(lay["calib"]):
+                res.mismatches.append(Mismatch(step=-1, what="layout", name="ekf-calibration", expected=list(lay["calib"]), observed=[str(x) for x in impl.arglist_calibration]))
             for key, rs in named(lay["readings"]).items():
+                smc = impl.sensor_models[key]
+                if [str(x) for x in smc.arglist_calibration] != list(lay["calib"]):
+                    res.mismatches.append(Mismatch(step=-1, what="layout", name="sensor-model-calibration:" + key, expected=list(lay["calib"]), observed=[str(x) for x in smc.arglist_calibration]))
                 got = [str(r) for r in impl.sensor_models[key].readings]
                 if got != list(rs):
                     res.mismatches.append(Mismatch(step=-1, what="layout", name="readings:" + key, expected=list(rs), observed=got))
